@@ -359,7 +359,10 @@ func matTriggerOpts(b *Behaviour, flow int, ftype string, opts *MatOpts) []byte 
 	if curTwin >= 0 {
 		contact = twinContact(opts != nil && opts.NoName)
 		msgURN = twinURNs[curTwin][0]
-		parentURNs = twinURNs[1-curTwin][:2]
+		parentURNs = twinURNs[1-curTwin]
+		if len(parentURNs) > 2 {
+			parentURNs = parentURNs[:2]
+		}
 	}
 	t := M{"flow": M{"uuid": flowUUID(flow), "name": fmt.Sprintf("Flow %d", flow)}, "contact": contact,
 		"params": M{"plan": planText(b)}, "triggered_on": "2018-07-06T12:00:00Z"}
